@@ -55,6 +55,17 @@ def tyOf? : String → Option TyTag
 def preludeCells : List Val :=
   [.builtin .print, .builtin .throw_, .builtin .isVarUndef, .native 0, .native 1, .native 2, .native 3]
 
+/-- a parameter is `x1` or `(int x1)` -/
+def paramNames (ps : List Sx) : List Name :=
+  ps.filterMap (fun p => match p with
+    | .atom x => some (varName x)
+    | .list [.atom _, .atom x] => some (varName x)
+    | _ => none)
+def paramTypes (ps : List Sx) : List (Option TyTag) :=
+  ps.map (fun p => match p with
+    | .list [.atom t, .atom _] => tyOf? t
+    | _ => none)
+
 partial def buildNode (sx : Sx) (b : Build) : Option (Node × Build) :=
   let lit (v : Val) (b : Build) : Node × Build := (.const b.heap.length, { b with heap := b.heap ++ [v] })
   let rec many (xs : List Sx) (b : Build) (acc : List Node) : Option (List Node × Build) :=
@@ -108,12 +119,16 @@ partial def buildNode (sx : Sx) (b : Build) : Option (Node × Build) :=
       let cs := caps.filterMap (fun p => match p with | .atom x => some (varName x) | _ => none)
       let nid0 := b1.nextNid
       pure (.lambda fid ((List.range cs.length).zip cs |>.map (fun p => (nid0 + p.1, p.2))),
-            { b1 with funs := b1.funs ++ [⟨ps, bn, none⟩], nextNid := nid0 + cs.length })
+            { b1 with funs := b1.funs ++ [{ params := ps, body := bn }], nextNid := nid0 + cs.length })
   | .list [.atom "def", .atom fname, .list params, body] => do
       let (bn, b1) ← buildNode body b
       let fid := b1.funs.length
-      let ps := params.filterMap (fun p => match p with | .atom x => some (varName x) | _ => none)
-      pure (.def_ (funName fname) fid, { b1 with funs := b1.funs ++ [⟨ps, bn, none⟩] })
+      pure (.def_ (funName fname) fid, { b1 with funs := b1.funs ++ [{ params := paramNames params, body := bn, ptys := paramTypes params }] })
+  | .list [.atom "defg", .atom fname, .list params, guard, body] => do
+      let (gn, b0) ← buildNode guard b
+      let (bn, b1) ← buildNode body b0
+      let fid := b1.funs.length
+      pure (.def_ (funName fname) fid, { b1 with funs := b1.funs ++ [{ params := paramNames params, body := bn, guard := some gn, ptys := paramTypes params }] })
   | .list (.atom "try" :: body :: clauses) => do
       let (bn, b1) ← buildNode body b
       let rec cls (xs : List Sx) (b : Build) (acc : List (Option (Name × Option TyTag) × Node)) (fin : Option Node) :
@@ -138,6 +153,12 @@ partial def buildNode (sx : Sx) (b : Build) : Option (Node × Build) :=
   | _ => none
 
 /-! ### printing ChaiScript source (the text the real engine evaluates) -/
+def printParams (xs : List Sx) : String :=
+  ", ".intercalate (xs.filterMap (fun p => match p with
+    | .atom x => some x
+    | .list [.atom t, .atom x] => some s!"{t} {x}"
+    | _ => none))
+
 partial def printSx (sx : Sx) : String :=
   let ps := printSx
   let blockBody (xs : List Sx) : String := "{ " ++ "; ".intercalate (xs.map ps) ++ " }"
@@ -173,9 +194,8 @@ partial def printSx (sx : Sx) : String :=
   | .list [.atom "lambda", .list caps, .list params, body] =>
       let names (xs : List Sx) := ", ".intercalate (xs.filterMap (fun p => match p with | .atom x => some x | _ => none))
       "fun" ++ (if caps.isEmpty then "" else s!"[{names caps}]") ++ s!"({names params}) {ps body}"
-  | .list [.atom "def", .atom fname, .list params, body] =>
-      let names (xs : List Sx) := ", ".intercalate (xs.filterMap (fun p => match p with | .atom x => some x | _ => none))
-      s!"def {fname}({names params}) {ps body}"
+  | .list [.atom "def", .atom fname, .list params, body] => s!"def {fname}({printParams params}) {ps body}"
+  | .list [.atom "defg", .atom fname, .list params, guard, body] => s!"def {fname}({printParams params}) : {ps guard} {ps body}"
   | .list (.atom "try" :: body :: clauses) =>
       s!"try {ps body}" ++ String.join (clauses.map (fun c => match c with
         | .list [.atom "catch", blk] => s!" catch {ps blk}"
@@ -243,7 +263,14 @@ partial def showNode (L : Lits) (ρ : List FunDef) (n : Node) : String :=
        | none => "(lambda?)")
   | .def_ name fid =>
       (match ρ[fid]? with
-       | some fd => s!"(def {nameStr name} {names fd.params} {sn fd.body})"
+       | some fd =>
+          let ps := "(" ++ " ".intercalate ((List.range fd.params.length).map (fun i =>
+            match fd.ptys.getD i none with
+            | some t => s!"({tyStr t} {nameStr (fd.params.getD i 0)})"
+            | none => nameStr (fd.params.getD i 0))) ++ ")"
+          (match fd.guard with
+           | some g => s!"(defg {nameStr name} {ps} {sn g} {sn fd.body})"
+           | none => s!"(def {nameStr name} {ps} {sn fd.body})")
        | none => "(def?)")
   | .tryN b cs fin =>
       "(try " ++ sn b ++ String.join (cs.map (fun c => match c with
